@@ -312,7 +312,7 @@ def run(ctx):
     a0, a1 = par.Acc(), par.Acc()
     check_history(items[1][0], LOCAL_ROUTES[:2], a0)
     check_history(items[1][0], LOCAL_ROUTES[:2], a1)
-    if (a0.n, a0.violations, a0.counters) != (a1.n, a1.violations, a1.counters):
+    if (a0.n, sorted(s for s, _d in a0.violations), a0.counters) != (a1.n, sorted(s for s, _d in a1.violations), a1.counters):
         raise HarnessError("non-deterministic result")
     acc = par.merge(par.pmap(_work, items, seed=ctx.seed, chunks_per_job=8))
     best = {}
